@@ -7,6 +7,7 @@ package llrp
 // value generation, and adversarial byte mutation.
 
 import (
+	"bytes"
 	"encoding"
 	"encoding/json"
 	"fmt"
@@ -639,4 +640,36 @@ func tlvOffsets(b []byte) []int {
 		}
 	}
 	return out
+}
+
+// ---------------------------------------------------------------- bytes stay what they were; messages beyond 64 KiB
+
+// stableChk: the bytes an encoder returned must still be the same after the next encoder call (a returned slice that
+// aliases a recycled buffer is overwritten by the next call). A difference is reported through the oracle's `same` verb.
+type stableChk struct{ prev, cp []byte }
+
+func (k *stableChk) note(o *vout, b []byte) {
+	if k.prev != nil && !bytes.Equal(k.prev, k.cp) {
+		o.line("same x"+vhex(k.cp)+" x"+vhex(k.prev), "yes")
+	}
+	k.prev, k.cp = b, append([]byte(nil), b...)
+}
+
+// bigReport: an ROAccessReport whose payload exceeds 64 KiB although every parameter in it is small (n TagReportData
+// with minimal content): sizes and remaining-byte counts at message level do not fit 16 bits
+func (s *vschema) bigReport(r *vrng, n int) (*sContainer, *gval) {
+	c := s.msgs["ROAccessReport"]
+	g := &vgen{s: s, r: r, budget: 0}
+	v := g.value(c, 6) // deep: only what the table requires
+	for i := range c.Slots {
+		if c.Slots[i].Ty == "TagReportData" {
+			sub := s.params["TagReportData"]
+			v.subs[i] = nil
+			for j := 0; j < n; j++ {
+				g2 := &vgen{s: s, r: r, budget: 0}
+				v.subs[i] = append(v.subs[i], g2.value(sub, 6))
+			}
+		}
+	}
+	return c, v
 }
